@@ -100,6 +100,8 @@ type Plan struct {
 	// Shared: all endpoint lists of one call are windows into one array owned by
 	// the application, each with the following lists in its spare capacity
 	Shared bool `json:"shared,omitempty"`
+	// Tick: the clock read by the library moves 1 ns with every reading
+	Tick bool `json:"tick,omitempty"`
 	// OwnerClose: before Close() the application closes some pool connections itself
 	OwnerClose bool `json:"owner_close,omitempty"`
 }
@@ -160,10 +162,11 @@ func Generate(r *rand.Rand, profile string, concurrent bool, avoid map[string]bo
 	}
 	p.Shared = !p.Alias && r.IntN(4) == 0
 	p.OwnerClose = r.IntN(5) == 0
+	p.Tick = r.IntN(3) == 0
 	bad := profile == "gmebad"
 	p.Init = genOpts(r, bad && r.IntN(4) == 0, true)
 	if concurrent {
-		p.Strategy = r.IntN(4)
+		p.Strategy = r.IntN(6) // 0 random walk, 1-3 PCT depth, 4-5 one long stall
 	}
 	n := 5 + r.IntN(25)
 	for i := 0; i < n; i++ {
@@ -805,6 +808,9 @@ func (s *sim) run(src *simkit.Source, logOn bool) {
 	k.LogOn = logOn
 	k.OpYields = 3000
 	k.MaxSteps = 100000
+	if s.plan.Tick {
+		k.TickNs = 1
+	}
 	s.k = k
 	k.OnSpawn = func(parent, child *kern.Task) {
 		if child.Name == "go" {
@@ -1829,6 +1835,9 @@ func (Engine) Strategy(p simkit.Plan, r *rand.Rand) simkit.Strategy {
 	pl := p.(*Plan)
 	if !pl.Concurrent || pl.Strategy == 0 {
 		return &simkit.RandomWalk{R: simkit.NewSM64(r.Uint64()), Stick: 0.6, Mix: 0.6}
+	}
+	if pl.Strategy >= 4 {
+		return simkit.NewStall(simkit.NewSM64(r.Uint64()), 4+len(pl.Ops), 28, 0.7, 0.6)
 	}
 	return simkit.NewPCT(simkit.NewSM64(r.Uint64()), pl.Strategy, 60+len(pl.Ops)*10, 0.6)
 }
